@@ -21,6 +21,7 @@ import (
 	"strconv"
 	"strings"
 	"sync"
+	"syscall"
 	"time"
 
 	"verif/simkit"
@@ -45,7 +46,11 @@ func verifDir() string {
 
 func goEnv() []string {
 	env := os.Environ()
-	env = append(env, "GOFLAGS=-mod=mod", "GOPROXY=off", "GOSUMDB=off", "GOTOOLCHAIN=local", "CGO_ENABLED=0")
+	cgo := "CGO_ENABLED=0"
+	if raceBuild() {
+		cgo = "CGO_ENABLED=1"
+	}
+	env = append(env, "GOFLAGS=-mod=mod", "GOPROXY=off", "GOSUMDB=off", "GOTOOLCHAIN=local", cgo)
 	return env
 }
 
@@ -54,9 +59,25 @@ var cleanup []string
 // exit removes scratch directories and terminates.
 func exit(code int) {
 	for _, d := range cleanup {
+		unmountBelow(d)
 		os.RemoveAll(d)
 	}
 	os.Exit(code)
+}
+
+// unmountBelow detaches every filesystem a worker mounted beneath dir (roots on
+// their own small tmpfs) and did not get to unmount itself (killed by the watchdog).
+func unmountBelow(dir string) {
+	data, err := os.ReadFile("/proc/self/mounts")
+	if err != nil {
+		return
+	}
+	for _, line := range strings.Split(string(data), "\n") {
+		f := strings.Fields(line)
+		if len(f) >= 2 && strings.HasPrefix(f[1], dir+"/") {
+			syscall.Unmount(f[1], 2 /* MNT_DETACH */)
+		}
+	}
 }
 
 func trouble(format string, args ...any) {
@@ -64,11 +85,20 @@ func trouble(format string, args ...any) {
 	exit(2)
 }
 
+// raceBuild: VERIF_RACE=1 builds the engine with the race detector (a maintenance
+// mode used to hunt data races in the harness itself; never used by MANIFEST commands).
+func raceBuild() bool { return os.Getenv("VERIF_RACE") == "1" }
+
 func buildEngine(root, engine string) string {
 	out := filepath.Join(root, ".build", engine+".test")
 	os.MkdirAll(filepath.Dir(out), 0o755)
 	// The harness module needs /repo's go.sum entries.
-	cmd := exec.Command(goTool, "test", "-c", "-tags", "verif", "-o", out, "./engines/"+engine)
+	args := []string{"test", "-c", "-tags", "verif", "-o", out, "./engines/" + engine}
+	if raceBuild() {
+		out = filepath.Join(root, ".build", engine+".race.test")
+		args = []string{"test", "-c", "-race", "-tags", "verif", "-o", out, "./engines/" + engine}
+	}
+	cmd := exec.Command(goTool, args...)
 	cmd.Dir = root
 	cmd.Env = goEnv()
 	if b, err := cmd.CombinedOutput(); err != nil {
